@@ -32,7 +32,7 @@ def cases(draw, tier="quick"):
     P["extra_msg_gets"] = draw(st.sampled_from([0, 0, 1, 2, 3]))
     P["dup"] = draw(st.booleans())
     P["reorder"] = draw(st.booleans())
-    P["gets"] = draw(st.sampled_from(["early", "tape", "tape", "late"]))
+    P["gets"] = draw(st.sampled_from(["early", "tape", "tape", "late", "after"]))
     P["get_after_closed"] = True
     if draw(st.integers(0, 3)) == 0:
         P["closes"] = [[draw(st.integers(0, 1)), draw(st.sampled_from([None, "code", "key", "verifier", "versions"]))]]
@@ -55,6 +55,9 @@ def run_case(P):
     if not all(s == "quiescent" for s in rec.settle):
         res.inconclusive = True
     ordered_observation = P["mode"] == "delegate" or P.get("gets", "early") == "early"
+    if P["mode"] == "deferred" and P.get("gets") == "after":
+        # nothing was requested before closed: every event recorded came from a get issued after closed
+        pass
     for i in range(2):
         kinds = [k for k in rec.kinds(i) if k != "welcome"]
         if P["mode"] == "delegate":
